@@ -110,8 +110,10 @@ def run(prop, components, tier, lean_targets=(), level_text="", assumptions=(), 
                     tcr.impl, tcr.model = cr.impl[:cutop], cr.model[:cutop]
                     tcr.oracle = [(o, m) for o, m in cr.oracle if o == cutop]
                     fid0 = comp.finding_id(tcr)
-                    if fid0 and fid0 in known:
-                        known_hit[fid0] = known[fid0]
+                    fids = [fid0] if isinstance(fid0, str) else (fid0 or [])
+                    if fids and all(f in known for f in fids):
+                        for f in fids:
+                            known_hit[f] = known[f]
                         continue
                 sig0 = (bool(cr.oracle), (cr.ops[min(cr.first_diff if cr.first_diff is not None else (cr.oracle[0][0] - 1), len(cr.ops) - 1)].split()[0]))
                 if seen_sig.get(sig0, 0) >= 3:
@@ -141,8 +143,10 @@ def run(prop, components, tier, lean_targets=(), level_text="", assumptions=(), 
                                first_model_disagreement=mcr.first_diff)
                 if mcr.oracle:
                     fid = comp.finding_id(mcr)
-                    if fid and fid in known:
-                        known_hit[fid] = known[fid]
+                    fids = [fid] if isinstance(fid, str) else (fid or [])
+                    if fids and all(f in known for f in fids):
+                        for f in fids:
+                            known_hit[f] = known[f]
                         continue
                     payload["kind"] = "property oracle fails on the implementation"
                     violations.append(payload)
